@@ -114,13 +114,14 @@ pub fn make_cut_under_corpus(seed: u64, n: usize, native: bool) -> Vec<Value> {
 /// One-rule programs from the list built-in generators of C16 / C17 (append, count, include, exclude, functor,
 /// join over lists with bound tails, rule-built lists, bound-variable elements).
 pub fn gen_list_builtin_program(s: &mut dyn Src) -> Option<Program> {
-    let aspect = if chance(s, 1, 2) { crate::props::builtins::BAspect::Append } else { crate::props::builtins::BAspect::Misc };
+    use crate::props::builtins::BAspect;
+    let aspect = match s.draw(6) { 0 | 1 => BAspect::Append, 2 | 3 => BAspect::Misc, 4 => BAspect::Compare, _ => BAspect::FuncSides };
     crate::props::builtins::scenario_programs(aspect, s).into_iter().next()
 }
 
 pub fn make_list_builtin_corpus(seed: u64, n: usize, native: bool) -> Vec<Value> {
     let out: RefCell<Vec<Value>> = RefCell::new(vec![]);
-    let config = Config { cases: (n * 20) as u32, failure_persistence: None, rng_seed: RngSeed::Fixed(splitmix(seed ^ 0xC24B)), ..Config::default() };
+    let config = Config { cases: (n * 400) as u32, failure_persistence: None, rng_seed: RngSeed::Fixed(splitmix(seed ^ 0xC24B)), ..Config::default() };
     let mut runner = TestRunner::new(config);
     let strat = vec(any::<u16>(), 16..=120);
     let _ = runner.run(&strat, |v| {
@@ -130,7 +131,12 @@ pub fn make_list_builtin_corpus(seed: u64, n: usize, native: bool) -> Vec<Value>
         let p = match gen_list_builtin_program(&mut src) { Some(p) => p, None => return Ok(()) };
         // keep the ones that walk a bound tail or a rule-built list (the shapes the walkers special-case)
         let text = format!("{}", p);
-        if !(text.contains("| $") || text.contains("copy(")) && o.len() % 4 != 0 { return Ok(()); }
+        let walks = text.contains("| $") || text.contains("copy(");
+        let compares = text.contains("less_than") || text.contains("greater_than") || text.contains("equal(") || text.contains(" = add(") || text.contains("multiply(") ;
+        if !(walks || compares) && o.len() % 4 != 0 { return Ok(()); }
+        // one entry in six compares an operand that is aliased to a still unbound body-local variable
+        let aliased = text.contains("$La");
+        if o.len() % 6 == 1 && !aliased { return Ok(()); }
         let r = solve_program(&p, Limits { steps: 400, depth: 60, answers: 5 });
         if r.status != Status::Finished { return Ok(()); }
         let answers = if native {
